@@ -119,6 +119,14 @@ def twoStepFresnel(Uin, wvl, d1, d2, z):
     #magnification
     m = float(d2)/d1
 
+    #For m != 1 the intermediate plane lies at z/(1-m) and two quadratic
+    #phases of ~1/|1-m| radians have to cancel: spacings that are equal up to
+    #rounding (0.3 against 0.1*3) leave nothing of the result. In that limit the
+    #intermediate plane is the Fourier plane, i.e. the method is the angular
+    #spectrum method, which is well conditioned for every magnification
+    if m != 1 and abs(m - 1) < 1e-6:
+        return angularSpectrum(Uin, wvl, d1, d2, z)
+
     #intermediate plane
     if m == 1:
         Dz1 = z / (1+m) #propagation distance
